@@ -102,7 +102,11 @@ func FindArrayIndex(str string) ([][]int, error) {
 		switch r {
 		case '\\':
 			{
-				i++
+				// a backslash escapes the next byte only inside a string literal: in a
+				// backtick identifier (and outside any quote) it is an ordinary character
+				if hold != nil && *hold != '`' {
+					i++
+				}
 			}
 		case '"':
 			{
